@@ -17,11 +17,9 @@ import (
 
 // Pass-through aliases for everything of sync the instrumented files might name.
 type (
-	WaitGroup = sync.WaitGroup
-	Once      = sync.Once
-	Map       = sync.Map
-	Cond      = sync.Cond
-	Locker    = sync.Locker
+	Map    = sync.Map
+	Cond   = sync.Cond
+	Locker = sync.Locker
 )
 
 var NewCond = sync.NewCond
@@ -35,6 +33,7 @@ const (
 	opLock
 	opRLock
 	opWLock
+	opWait
 )
 
 type thread struct {
@@ -183,6 +182,8 @@ func (r *Run) enabled(t *thread) bool {
 		return true
 	case opWLock:
 		return t.on.(*RWMutex).free(r)
+	case opWait:
+		return t.on.(*WaitGroup).count(r) <= 0
 	}
 	return true
 }
@@ -526,4 +527,73 @@ func (p *Pool) Put(x interface{}) {
 		p.epoch, p.stack = r.epoch, nil
 	}
 	p.stack = append(p.stack, x)
+}
+
+// WaitGroup replaces sync.WaitGroup: Wait is a scheduling point that is enabled once the
+// counter is zero (a pass-through Wait would block the only running goroutine).
+type WaitGroup struct {
+	real  sync.WaitGroup
+	epoch uint64
+	n     int
+}
+
+func (w *WaitGroup) count(r *Run) int {
+	if w.epoch != r.epoch {
+		w.epoch, w.n = r.epoch, 0
+	}
+	return w.n
+}
+
+func (w *WaitGroup) Add(d int) {
+	r := active.Load()
+	if r == nil || r.aborting {
+		w.real.Add(d)
+		return
+	}
+	w.count(r)
+	w.n += d
+	if w.n < 0 {
+		panic("sync: negative WaitGroup counter")
+	}
+}
+
+func (w *WaitGroup) Done() { w.Add(-1) }
+
+func (w *WaitGroup) Wait() {
+	r := active.Load()
+	if r == nil {
+		w.real.Wait()
+		return
+	}
+	if r.aborting {
+		return
+	}
+	r.park(opWait, w)
+}
+
+// Once replaces sync.Once: a second caller waits (as a scheduling point) for the first.
+type Once struct {
+	real sync.Once
+	m    Mutex
+	done atomic.Bool
+}
+
+func (o *Once) Do(f func()) {
+	if o.done.Load() {
+		return
+	}
+	r := active.Load()
+	if r == nil || r.aborting {
+		o.real.Do(func() {
+			defer o.done.Store(true)
+			f()
+		})
+		return
+	}
+	o.m.Lock()
+	defer o.m.Unlock()
+	if !o.done.Load() {
+		defer o.done.Store(true)
+		f()
+	}
 }
